@@ -18,7 +18,9 @@ func init() {
 			"Oracle: the Descriptor returned by the real codec equals the reference descriptor on Index, Name, Type, struct TypeName, ExplicitPresence, LogicalType, element count and order, recursively (the synthesised name of map-entry pseudo structs is not compared). non-trivial = type with at least one struct, map, pointer, time or tag option",
 		Assumptions: []string{"ref.Descriptor is written from the doc comments of plenccodec.Descriptor and C14's statement"},
 		Work:        c14Work,
-		Post:        func(a *mc.Agg) []string { return needDims(a, "json:n", "json:n,omitempty", "json:,omitempty", "json:-", "universe", "named") },
+		Post: func(a *mc.Agg) []string {
+			return needDims(a, "json:n", "json:n,omitempty", "json:,omitempty", "json:-", "universe", "named")
+		},
 	})
 }
 
